@@ -460,3 +460,92 @@ func TestSearchRejected(t *testing.T) {
 		})
 	}
 }
+
+// TestIter: the constructs of the sixth round (iter.go).
+func TestIter(t *testing.T) {
+	wl := []fnSpec{
+		{dir: "pos6", file: "pos6.go", recv: "Key", name: "Same", lean: "same"},
+		{dir: "pos6", file: "pos6.go", recv: "It", name: "Rewind", lean: "rewind", mut: map[string]string{"it": "i"}},
+		{dir: "pos6", file: "pos6.go", recv: "It", name: "Step", lean: "step", reuse: true, fuel: []string{"it_ks.size + it_src_All.size + 5"},
+			views:   map[string]string{"it": "e.reply e.stack[].k h.isNil h.k i ks ks.isNil ply r"},
+			mut:     map[string]string{"it": "i ks ks.isNil r"},
+			oracles: map[string]string{"it": "src.All(s) src.Try(v,s) order()=ks"},
+			storage: map[string]string{"it": "store.slice store.alloc e.stack[].buf"}},
+	}
+	for i := range wl {
+		wl[i].round2, wl[i].round3, wl[i].round5, wl[i].round6 = true, true, true, true
+	}
+	withWhitelist(t, []string{""}, wl, func(out map[string]string, errs []error) {
+		for _, e := range errs {
+			t.Errorf("unexpected failure: %v", e)
+		}
+		src := out["Funcs.lean"]
+		if p := os.Getenv("GEN_DUMP"); p != "" {
+			os.WriteFile(p, []byte(prelude5+src), 0o644)
+		}
+		for _, want := range []string{
+			"def rewind  : Int :=\n  let it_i : Int := (0 : Int)\n  it_i",
+			// the pointer result is `Option C_Box` with C_Box a type parameter; value-argument oracle = function parameter; statement oracle
+			"def step {C_Box : Type} (it_e_reply : List (Key × Key)) (it_e_stack_k : Array (Key)) (it_h_isNil : Bool) (it_h_k : Key) (it_i : Int) (it_ks : Array (Key)) (it_ks_isNil : Bool) (it_order : Array (Key) → Array (Key)) (it_ply : Int) (it_r : Key) (it_src_All : Array (Key)) (it_src_All_isNil : Bool) (it_src_Try : Key → (Option C_Box × Bool)) : Option (Key × Option C_Box × Int × Array (Key) × Bool × Key) :=",
+			// `for { .. return .. }`: a fuelled helper; the state are the assigned fields
+			"def step_loop0 {C_Box : Type} ",
+			"  | 0, _ => none\n  | fuel+1, sv_ =>\n    let (it_i, it_ks, it_ks_isNil, it_r) := sv_\n    let k_1 : Key := (default : Key)",
+			// a read through the nil-able pointer field is guarded; `break` in the switch = the switch's continuation (the oracle call)
+			"if (!it_h_isNil) then\n        if it_h_isNil then none else\n        let k_1 : Key := it_h_k\n        if !(decide ((0 : Int) ≤ it_ply) && decide (it_ply < (4 : Int))) then none else\n        let (child, e) := (it_src_Try k_1)\n        if e then\n          some (.error ((k_1, child, (it_i, it_ks, it_ks_isNil, it_r))))\n        else\n          step_loop0 ",
+			// `continue` in the switch = the next round of the loop; comma-ok: the zero value when absent
+			"if (it_ply == (0 : Int)) then\n          step_loop0 ",
+			"let tmp0 := mapGet it_e_reply (it_e_stack_k.getD (it_ply - (1 : Int)).toNat (default : Key))\n          let it_r : Key := tmp0.getD (default : Key)\n          let ok : Bool := tmp0.isSome\n          if ok then\n            let k_1 : Key := it_r",
+			// buffers are skipped; the oracle's value and nil-ness are assigned together
+			"if it_ks_isNil then\n                let it_ks := it_src_All\n                let it_ks_isNil : Bool := it_src_All_isNil\n                some ((it_ks, it_ks_isNil))",
+			"let it_ks := it_order it_ks",
+			// `return Key{}, nil`
+			"some (.error ((({ A := (0 : Int), B := 0#32 } : Key), none, (it_i, it_ks, it_ks_isNil, it_r))))",
+			// conditional nil-dereference guard under &&
+			"if ((!it_h_isNil) && (it_h_isNil)) then none else",
+			// the code after the loop is unreachable
+			"| some (.error rv_) => some (rv_)\n  | some (.ok (it_i, it_ks, it_ks_isNil, it_r)) =>\n  none",
+		} {
+			if !strings.Contains(src, want) {
+				t.Errorf("generated source lacks:\n%s", want)
+			}
+		}
+		if t.Failed() {
+			t.Logf("generated:\n%s", src)
+		}
+	})
+}
+
+// TestIterRejected: the unsound neighbours of the sixth-round constructs are refused loudly.
+func TestIterRejected(t *testing.T) {
+	buf := map[string]string{"it": "store.slice"}
+	cases := []struct {
+		name, msg string
+		spec      fnSpec
+	}{
+		{"BufValue", "the buffer ks used as a value", fnSpec{views: map[string]string{"it": "i"}, storage: buf}},
+		{"KeepsContent", "must be `buf[:0]` of a declared buffer", fnSpec{reuse: true, views: map[string]string{"it": "ks ks.isNil"}, mut: map[string]string{"it": "ks ks.isNil"},
+			oracles: map[string]string{"it": "src.All(s)"}, storage: buf}},
+		{"StaleNil", "the nil-ness of the value assigned to it_ks is not known", fnSpec{views: map[string]string{"it": "ks ks.isNil other"}, mut: map[string]string{"it": "ks ks.isNil"}}},
+		{"NilInputOnly", "its nil-ness it_ks_isNil is not declared assignable", fnSpec{reuse: true, views: map[string]string{"it": "ks ks.isNil"}, mut: map[string]string{"it": "ks"},
+			oracles: map[string]string{"it": "src.All(s)"}, storage: buf}},
+		{"OpaqueUse", "unsupported type *neg.Box6", fnSpec{views: map[string]string{"it": "i"}, oracles: map[string]string{"it": "src.Try(v,s)"},
+			storage: map[string]string{"it": "box"}}},
+		{"TwoSites", "two call sites of the oracle it_src_All", fnSpec{reuse: true, views: map[string]string{"it": "i"}, oracles: map[string]string{"it": "src.All(s)"}, storage: buf}},
+		{"LabelledBreak", "LabeledStmt", fnSpec{views: map[string]string{"it": "i"}, mut: map[string]string{"it": "i"}, fuel: []string{"9"}}},
+		{"CommaOkElem", "comma-ok map read: target", fnSpec{views: map[string]string{"it": "ks seen"}, mut: map[string]string{"it": "ks"}}},
+		{"Undeclared", "", fnSpec{reuse: true, views: map[string]string{"it": "i"}, storage: buf}},
+	}
+	for _, c := range cases {
+		sp := c.spec
+		sp.dir, sp.file, sp.recv, sp.name, sp.lean = "neg", "neg.go", "It6", c.name, "f"
+		sp.round2, sp.round3, sp.round5, sp.round6 = true, true, true, true
+		withWhitelist(t, []string{""}, []fnSpec{sp}, func(out map[string]string, errs []error) {
+			if len(errs) != 1 || !strings.Contains(errs[0].Error(), c.msg) {
+				t.Errorf("%s: expected one failure mentioning %q, got %v", c.name, c.msg, errs)
+			}
+			if _, written := out["Funcs.lean"]; written {
+				t.Errorf("%s: a group with a failed function must not be written", c.name)
+			}
+		})
+	}
+}
